@@ -178,8 +178,11 @@ def arg_node(p, a, fld, w):
 
 
 def r3(cx, chk, cfg, F):
-    """callback-free node helpers: derived as non-exported RawLRU methods that unindex+free or evict a node without ever reaching a cb wrapper"""
+    """callback-free node helpers (put_nonnull / put_or_evict_nonnull and any non-exported RawLRU method that reaches one of them on its own
+    receiver): the obligation `E = DefaultEvictCallback` sits at the call sites that enter this family from outside it"""
     n = 0
+    H = {"put_nonnull", "put_or_evict_nonnull"}
+    sites = []
     for b in F.doc["bodies"]:
         fn = F.fns[b["path"]]
         for blk in b["blocks"]:
@@ -187,18 +190,38 @@ def r3(cx, chk, cfg, F):
             if t["k"] != "call" or "q" not in t["f"]:
                 continue
             q = (t["f"].get("resolved") or t["f"])["q"]
-            name = q.split("::")[-1]
-            if name in ("put_nonnull", "put_or_evict_nonnull") and q.startswith(RAW):
-                n += 1
-                st = t["f"].get("self_ty", "")
-                if "DefaultEvictCallback" not in st:
-                    chk.violation("C15.R3", "%s|%s" % (fn["q"], name), "%s (evicts without invoking the callback) is applied to a receiver of type %s" % (name, st),
-                                  fn["span"]["file"], t["ln"], fn["q"], None, cfg)
-                else:
-                    chk.ob("C15.R3", "%s:%s|%s|%s" % (cfg, fn["q"], name, t["ln"]), "receiver E = DefaultEvictCallback")
-    for name in ("put_nonnull", "put_or_evict_nonnull"):
+            if q.startswith(RAW):
+                sites.append((fn, t, q.split("::")[-1]))
+    grew = True
+    while grew:
+        grew = False
+        for fn, t, name in sites:
+            owner = fn
+            while owner.get("kind") == "Closure":
+                owner = F.fns[owner["parent"]]
+            im = F.impl_of(owner)
+            if name in H and owner["name"] not in H and im and im["self_head"] == api.CACHES["RawLRU"] and not im["trait"] and not owner.get("exported") \
+                    and "DefaultEvictCallback" not in t["f"].get("self_ty", ""):
+                H.add(owner["name"])      # a private RawLRU helper that itself evicts without the callback
+                grew = True
+    for fn, t, name in sites:
+        if name not in H:
+            continue
+        owner = fn
+        while owner.get("kind") == "Closure":
+            owner = F.fns[owner["parent"]]
+        n += 1
+        st = t["f"].get("self_ty", "")
+        if "DefaultEvictCallback" in st:
+            chk.ob("C15.R3", "%s:%s|%s|%s" % (cfg, fn["q"], name, t["ln"]), "receiver E = DefaultEvictCallback")
+        elif owner["name"] in H and (F.impl_of(owner) or {}).get("self_head") == api.CACHES["RawLRU"]:
+            chk.ob("C15.R3", "%s:%s|%s|%s" % (cfg, fn["q"], name, t["ln"]), "inside the callback-free helper family (obligation at the callers of %s)" % owner["name"])
+        else:
+            chk.violation("C15.R3", "%s|%s" % (fn["q"], name), "%s (evicts without invoking the callback) is applied to a receiver of type %s" % (name, st),
+                          fn["span"]["file"], t["ln"], fn["q"], None, cfg)
+    for name in sorted(H):
         for f in F.doc["fns"]:
-            if f.get("name") == name and f.get("exported"):
+            if f.get("name") == name and f.get("exported") and (F.impl_of(f) or {}).get("self_head") == api.CACHES["RawLRU"]:
                 chk.violation("C15.R3", "exported|" + name, "%s is reachable from outside the crate" % name, f["span"]["file"], f["span"]["lo"], f["q"], None, cfg)
     chk.floor("C15.R3", "call sites of the callback-free helpers in %s" % cfg, n, 15)
 
